@@ -218,6 +218,9 @@ impl Property for C01 {
     fn id(&self) -> &'static str {
         "C01"
     }
+    fn ir_shrinkable(&self) -> bool {
+        true
+    }
     fn fuzzable(&self) -> bool {
         true
     }
